@@ -1,6 +1,7 @@
 import ScrapliModel.Lemmas.Pipe
 import ScrapliModel.Generated.Consts
 import ScrapliModel.Generated.SshArgv
+import ScrapliModel.Generated.C16Deadlines
 /-!
 # C16 — Built-in transports are transparent, ordered byte pipes that unblock on close
 
@@ -598,6 +599,28 @@ theorem escapechar_none_always (a : SshCfg.Args) (s : SshCfg.SSHArgs) (extra o :
 
 example : ((Gen.SshArgv.buildOpenArgs ⟨[104], 22, [117], [], 30000000000⟩
     { strictKey := true, configFile := [47, 99] } [[45, 118]] []).drop 7).take 2 = [dashO, escapeCharNone] := by
+  decide
+
+/-! ## No socket deadline outlives `Open`
+
+The model's raw reader and writer have no notion of time: a session of any age behaves like a
+fresh one. In the code that holds only if every deadline armed while a connection is opened
+(telnet's negotiation reads; nothing in the standard and system transports) is cleared before the
+open reports success. The translator lists every `Set(Read|Write)?Deadline` call of the transports
+and the directions still armed at each success return. -/
+
+/-- **no_deadline_survives_open**: in `transport/{standard,telnet,system}.go`, no function that
+sets a deadline returns success with a read or write deadline still armed (and every file was
+parsed, so the list is complete) -/
+theorem no_deadline_survives_open :
+    Gen.C16Deadlines.survivors = [] ∧ Gen.C16Deadlines.unparsed = [] := by
+  decide
+
+/-- every arming call site is paired with a clearing call of the same method in the same function -/
+theorem deadline_armings_have_clears :
+    ∀ s ∈ Gen.C16Deadlines.sites, s.arg ≠ "zero" →
+      ∃ c ∈ Gen.C16Deadlines.sites, c.file = s.file ∧ c.fn = s.fn ∧ c.arg = "zero" ∧
+        (c.method = s.method ∨ c.method = "SetDeadline") := by
   decide
 
 /-! ## The wrapper's slice and error handling -/
